@@ -313,3 +313,53 @@ def run(ctx):
     for (cfg, tr, impl_labels, betas), mo in zip(whole_meta, ctx.driver.run(whole_lines)):
         verdict = replay_run.compare(ctx, cfg, tr, mo, impl_labels, betas)
         ctx.count("whole_run_replay:" + verdict)
+
+    # ---------------- failing first round: an initial labelling that leaves a cluster without windows.  The model's
+    # statistics phase fails ("empty-cluster", first_round_empty_cluster_iff); the real run must raise (the size
+    # assertion of the statistics phase) before any optimisation, never return a result.
+    if ctx.replay is None:
+        import random as pyrandom2
+        from fractions import Fraction
+        from fast_ticc import data_preparation as dp2
+        e_lines, e_meta = [], []
+        for rep in range(4 if ctx.quick() else 40):
+            r = pyrandom2.Random(ctx.rng.randrange(2 ** 31))
+            K2, W2, N2 = r.choice([2, 3, 4]), r.choice([1, 2]), r.choice([1, 2])
+            data = tu.make_series(r, 30 + W2, N2, regimes=2, seg=(8, 15))
+            npts = data.shape[0] - W2 + 1
+            empty_k = r.randrange(K2)
+            others = [k for k in range(K2) if k != empty_k]
+            init = [r.choice(others) for _ in range(npts)] if rep % 4 else \
+                [others[i % len(others)] for i in range(npts)]
+            if rep % 4 == 3:
+                init = [i % K2 for i in range(npts)]       # control: no empty cluster, the run must complete
+            with tu.patched(cla, "build_initial_clusters", lambda num_clusters, training_data, _i=init: list(_i)):
+                tu.seed_all(rep)
+                err = res = None
+                with tu.Trace(capture_kernel=False, max_rounds=5) as tr0:
+                    try:
+                        with tu.quiet():
+                            res = tu.run_single(data, window_size=W2, num_clusters=K2, label_switching_cost=3.0,
+                                                min_cluster_size=2, iteration_limit=2)
+                    except Exception as e:
+                        err = e
+            has_empty = any(init.count(k) == 0 for k in range(K2))
+            ctx.count("first_round_empty:" + ("raised" if err is not None else "returned"))
+            if has_empty and err is None:
+                ctx.violation("impl-violation", "a run whose initial labelling leaves a cluster without windows returned a result",
+                              {"init": init, "K": K2}, {"site": "main-loop", "clause": "empty-initial-cluster"})
+            if has_empty and err is not None and any(e["phase"] == "opt" for e in tr0.events):
+                ctx.violation("impl-violation", "an empty initial cluster reached the optimisation phase",
+                              {"init": init, "K": K2}, {"site": "main-loop", "clause": "empty-initial-cluster"})
+            stacked = dp2.stack_training_data(data, W2)
+            fr = lambda x: common.frac_str(Fraction(float(x)))
+            # (limit 1 on the model side: only the first round is compared, no solver oracles are supplied)
+            e_lines.append(f"replayrun {npts} {stacked.shape[1]} {K2} 2 1 1/2 0 {show_list([3.0] * npts, fr)} "
+                           f"{show_list(stacked.tolist(), lambda row: show_list(row, fr), ';')} {show_list(init)} -")
+            e_meta.append((has_empty, err, init, K2))
+            ctx.case(("empty-init", rep, K2, tuple(init)), nontrivial=has_empty)
+        for (has_empty, err, init, K2), mo in zip(e_meta, ctx.driver.run(e_lines)):
+            model_fails = mo.startswith("err empty-cluster")
+            if model_fails != has_empty or (model_fails and err is None):
+                ctx.violation("correspondence-break", "whole-run model vs implementation on an initial labelling with an empty cluster "
+                              f"(model: {mo[:40]}, implementation raised: {type(err).__name__ if err else None})", {"init": init, "K": K2})
